@@ -7,11 +7,11 @@ import (
 	"fmt"
 	"net"
 	"reflect"
+	"strconv"
 	"time"
 
 	"mosn.io/api"
 	"mosn.io/mosn/pkg/network"
-	"mosn.io/mosn/pkg/protocol"
 	"mosn.io/mosn/pkg/protocol/xprotocol"
 	"mosn.io/mosn/pkg/protocol/xprotocol/bolt"
 	"mosn.io/mosn/pkg/protocol/xprotocol/boltv2"
@@ -23,7 +23,6 @@ import (
 	"mosn.io/pkg/buffer"
 	"mosn.io/pkg/variable"
 	"verif/vh"
-	"verif/xc02"
 )
 
 func init() {
@@ -43,10 +42,9 @@ type tcase struct {
 	Ops []top `json:"ops"`
 }
 
-const (
-	wrapBase = uint64(1)<<32 - 2 // the next ids are 2^32-1, 0, 1, ... for a 32-bit protocol
-	specMod  = 65536             // the model wraps at 2^16 (TLC integers)
-)
+// The model's id type has specMod values (XStreamConn.tla Mod); a real id x is reported as Val((x + shift) mod specMod),
+// the shift (0 or specMod/2) putting the boundary the real counter was seeded at where the model has it.
+const specMod = 16
 
 type delivery struct {
 	W   int    `json:"w"`
@@ -64,23 +62,18 @@ type waiter struct {
 	gen    int
 	tok    string
 	sender types.StreamSender
-	id     uint64
+	id     uint64 // what the stream reports (key of the stream table)
+	wire   uint64 // raw bits of the id field the peer read off the request
+	seen   bool   // the request was seen on the wire
 }
 
 type recv struct {
-	wt  *waiter
-	tok string
+	wt *waiter
+	p  tproto
 }
 
 func (r *recv) OnReceive(ctx context.Context, headers types.HeaderMap, data types.IoBuffer, trailers types.HeaderMap) {
-	tok := ""
-	if data != nil {
-		tok = data.String()
-	}
-	if h, ok := headers.Get("token"); ok && h != tok {
-		tok = "header:" + h + "/body:" + tok
-	}
-	r.wt.run.delivered = append(r.wt.run.delivered, delivery{W: r.wt.w, Tok: tok})
+	r.wt.run.delivered = append(r.wt.run.delivered, delivery{W: r.wt.w, Tok: r.p.token(headers, data)})
 }
 func (r *recv) OnDecodeError(ctx context.Context, err error, headers types.HeaderMap) {}
 
@@ -92,20 +85,28 @@ func (l *lis) OnResetStream(reason types.StreamResetReason) {
 func (l *lis) OnDestroyStream() {}
 
 type wireReq struct {
-	id  uint32
+	id  uint64
 	tok string
 }
 
-func mods(ids []uint64) []int {
-	out := []int{}
-	for _, x := range ids {
-		out = append(out, int(x%specMod))
+// runTable replays every history into a fresh real client stream connection of protocol p over a loopback pair, the
+// id counter seeded at base.
+func runTable(cases string, tr *vh.Trace, rs *vh.Out, shard, shards int, p tproto, base uint64, shift int) {
+	m := mask(p.bits())
+	idm := func(x uint64) int { // a real id (key or raw field bits) in model terms
+		v := int(((x & m) + uint64(shift)) % specMod)
+		if p.signed() && v >= specMod/2 {
+			v -= specMod
+		}
+		return v
 	}
-	return out
-}
-
-// runTable replays every history into a fresh real client stream connection (bolt over a loopback pair).
-func runTable(cases string, tr *vh.Trace, rs *vh.Out, shard, shards int) {
+	mods := func(ids []uint64) []int {
+		out := []int{}
+		for _, x := range ids {
+			out = append(out, idm(x))
+		}
+		return out
+	}
 	ln, err := net.Listen("tcp", "127.0.0.1:0")
 	vh.Must(err, "listen")
 	defer ln.Close()
@@ -120,18 +121,19 @@ func runTable(cases string, tr *vh.Trace, rs *vh.Out, shard, shards int) {
 				defer c.Close()
 				br := bufio.NewReader(c)
 				for {
-					f, err := xc02.ReadFrame(br)
+					id, tok, isReq, err := p.readRequest(br)
 					if err != nil {
 						return
 					}
-					if f.Type == 1 && f.Cmd == 1 {
-						wire <- wireReq{id: f.ID, tok: string(f.Content)}
+					if isReq {
+						wire <- wireReq{id: id, tok: tok}
 					}
 				}
 			}(c)
 		}
 	}()
 	raddr, _ := net.ResolveTCPAddr("tcp", ln.Addr().String())
+	pname := string(p.name())
 	idx, n := 0, 0
 	err = vh.ReadCases(cases, func(raw json.RawMessage) error {
 		idx++
@@ -147,19 +149,19 @@ func runTable(cases string, tr *vh.Trace, rs *vh.Out, shard, shards int) {
 		cc := network.NewClientConnection(0, nil, raddr, stop)
 		vh.Must(cc.Connect(), "connect loopback")
 		cctx := variable.NewVariableContext(context.Background())
-		cl := stream.NewStreamClient(cctx, bolt.ProtocolName, cc, nil)
+		cl := stream.NewStreamClient(cctx, p.name(), cc, nil)
 		if cl == nil {
 			vh.Must(fmt.Errorf("no stream client"), "NewStreamClient")
 		}
 		sc, _ := reflect.ValueOf(cl).Elem().FieldByName("ClientStreamConnection").Interface().(types.ClientStreamConnection)
-		if sc == nil || !xstream.VerifSetClientStreamIDBase(sc, wrapBase) {
+		if sc == nil || !xstream.VerifSetClientStreamIDBase(sc, base) {
 			vh.Must(fmt.Errorf("cannot reach the stream connection"), "accessor")
 		}
 		for len(wire) > 0 {
 			<-wire
 		}
 		run := &tableRun{}
-		tr.Emit(vh.Ev{"ev": "tnew", "proto": "bolt", "name": fmt.Sprintf("t%d.%d", shard, idx), "case": c})
+		tr.Emit(vh.Ev{"ev": "tnew", "proto": pname, "base": strconv.FormatUint(base, 10), "name": fmt.Sprintf("t%d.%d", shard, idx), "case": c})
 		ws := map[int]*waiter{}
 		var last uint64
 		take := func() ([]delivery, []int) {
@@ -174,8 +176,7 @@ func runTable(cases string, tr *vh.Trace, rs *vh.Out, shard, shards int) {
 			return d, r
 		}
 		respond := func(id uint64, tok string) {
-			f := &xc02.Frame{Type: 0, Cmd: 2, ID: uint32(id), Status: 0, Header: [][2]string{{"token", tok}}, Content: []byte(tok)}
-			cl.OnData(buffer.NewIoBufferBytes(f.Encode()))
+			cl.OnData(buffer.NewIoBufferBytes(p.response(id&m, tok)))
 		}
 		for _, o := range c.Ops {
 			switch o.Op {
@@ -186,33 +187,42 @@ func runTable(cases string, tr *vh.Trace, rs *vh.Out, shard, shards int) {
 					ws[o.W] = wt
 				}
 				wt.gen++
-				wt.tok = fmt.Sprintf("t%d.%d-w%dg%d", shard, idx, o.W, wt.gen)
+				wt.tok = fmt.Sprintf("%s.%d.%d-w%dg%d", pname, shard, idx, o.W, wt.gen)
 				ctx := buffer.NewBufferPoolContext(variable.NewVariableContext(context.Background()))
-				wt.sender = cl.NewStream(ctx, &recv{wt: wt, tok: wt.tok})
+				wt.sender = cl.NewStream(ctx, &recv{wt: wt, p: p})
 				wt.sender.GetStream().AddEventListener(&lis{wt: wt})
 				wt.id = wt.sender.GetStream().ID()
 				last = wt.id
-				req := bolt.NewRpcRequest(0, protocol.CommonHeader(map[string]string{"service": "c02"}), nil)
-				wt.sender.AppendHeaders(ctx, req.GetHeader(), false)
-				wt.sender.AppendData(ctx, buffer.NewIoBufferString(wt.tok), true)
-				wr := wireReq{id: 0xdeadbeef, tok: "(request not seen on the wire)"}
+				hdr, data, err := p.request(wt.tok)
+				vh.Must(err, "request frame")
+				wt.sender.AppendHeaders(ctx, hdr, false)
+				wt.sender.AppendData(ctx, data, true)
+				wr := wireReq{tok: "(request not seen on the wire)"}
+				wt.seen = false
 				select {
 				case wr = <-wire:
+					wt.seen = true
 				case <-time.After(5 * time.Second):
 				}
+				wt.wire = wr.id
 				d, r := take()
-				tr.Emit(vh.Ev{"ev": "new", "w": o.W, "id": fmt.Sprint(wt.id), "idm": int(wt.id % specMod), "hi": int(wt.id >> 32),
-					"wire_idm": int(wr.id % specMod), "wire_eq": uint64(wr.id) == wt.id, "wire_tok": wr.tok, "tok": wt.tok, "delivered": d, "resets": r,
+				tr.Emit(vh.Ev{"ev": "new", "w": o.W, "id": strconv.FormatUint(wt.id, 10), "idm": idm(wt.id), "wire": strconv.FormatUint(wr.id, 10),
+					"wire_idm": idm(wr.id), "wire_eq": wt.seen && wr.id == wt.id&m, "wire_tok": wr.tok, "tok": wt.tok, "delivered": d, "resets": r,
 					"books": mods(xstream.VerifClientStreamIDs(sc))})
 			case "resp":
+				// the peer echoes the id field of the request it read (of the stream's own id if the request never arrived)
 				wt := ws[o.W]
-				respond(wt.id, wt.tok)
+				id := wt.wire
+				if !wt.seen {
+					id = wt.id
+				}
+				respond(id, wt.tok)
 				d, r := take()
-				tr.Emit(vh.Ev{"ev": "resp", "w": o.W, "idm": int(wt.id % specMod), "delivered": d, "resets": r, "books": mods(xstream.VerifClientStreamIDs(sc))})
+				tr.Emit(vh.Ev{"ev": "resp", "w": o.W, "idm": idm(id), "delivered": d, "resets": r, "books": mods(xstream.VerifClientStreamIDs(sc))})
 			case "ghost":
-				respond(uint64(uint32(last+3)), "ghost")
+				respond(last+3, "ghost")
 				d, r := take()
-				tr.Emit(vh.Ev{"ev": "ghost", "delivered": d, "resets": r, "books": mods(xstream.VerifClientStreamIDs(sc))})
+				tr.Emit(vh.Ev{"ev": "ghost", "idm": idm(last + 3), "delivered": d, "resets": r, "books": mods(xstream.VerifClientStreamIDs(sc))})
 			case "reset":
 				ws[o.W].sender.GetStream().ResetStream(types.StreamLocalReset)
 				d, r := take()
@@ -228,6 +238,6 @@ func runTable(cases string, tr *vh.Trace, rs *vh.Out, shard, shards int) {
 		return nil
 	})
 	vh.Must(err, "cases")
-	rs.Put(map[string]interface{}{"summary": true, "runs": n})
-	fmt.Printf("c02 table runs=%d events=%d\n", n, tr.Len())
+	rs.Put(map[string]interface{}{"summary": true, "runs": n, "proto": pname})
+	fmt.Printf("c02 table proto=%s base=%d runs=%d events=%d\n", pname, base, n, tr.Len())
 }
